@@ -153,7 +153,7 @@ func max0(x int) int {
 // kinds whose decoding by the list-based reference inflater is cheap even with a 32 KiB window
 var cheapKinds = []string{"tokedge", "uni1", "uni2", "uni3", "uni4", "uni6", "uni8", "fib", "one", "two",
 	"plant4095", "plant4096", "plant4097", "plant32767", "plant32768", "plant32769", "plant1", "plant2", "plant70000",
-	"run", "per1", "per2", "per3", "per4", "per7", "per31", "per64", "rnd", "zeros"}
+	"run", "per1", "per2", "per3", "per4", "per7", "per31", "per64", "rnd", "zeros", "rarerun"}
 
 func pickData(r *Rng, s Setting, n int) DataSpec {
 	if s.Dict != nil && r.Intn(3) != 0 {
